@@ -553,6 +553,7 @@ SYS_PREFIXES = {
 _E = {"table": "e", "steps": []}
 _F = {"table": "f", "steps": []}
 _D = {"table": "d", "steps": []}
+_GXI = {"table": "d", "steps": [{"call": "select_columns", "cols": ["g", "x", "i"]}]}
 
 SYS_STEPS = [
     _ext([["b", "x + 1"]]), _ext([["b", "zz + 1"]]), _ext([["b", "y * 2"]]), _ext([["x", "x + 1"]]),
@@ -612,6 +613,11 @@ SYS_STEPS = [
     _join(_E, ["g"], "cross"), _join(_E, [], "cross"), _join(_E, ["g"], "semi"), _join(_E, ["g"], "outer"),
     _join(_E, ["g"], "INNER"), _join(_E, [["g", "g"], ["x", "x"]], "full", True), _join(_D, ["i"], "left"),
     _join(_D, ["i"], "inner", True), _join(_E, ["z"], "right"),
+    # differently named key pairs whose names are columns of BOTH sides (self-join style parent == id): with the check
+    # requested such a common column is covered only when it is a key on both sides
+    _join(_GXI, ["g", ["x", "i"]], "inner", True), _join(_GXI, ["g", ["x", "i"]], "inner", False),
+    _join(_GXI, [["x", "i"]], "left", True), _join(_GXI, ["g", ["x", "i"], ["i", "x"]], "left", True),
+    _join(_GXI, ["g", "x", "i"], "left", True), _join(_E, [["x", "g"]], "inner", True),
     _concat(_F, None), _concat(_F, "src"), _concat(_F, "g"), _concat(_E, None), _concat(_D, "source_name"),
     _concat({"table": "f", "steps": [{"call": "drop_columns", "cols": ["y"]}]}, None),
 ]
